@@ -389,6 +389,8 @@ impl WaitForGraph {
     /// the new edge is silently dropped to bound memory usage.
     #[allow(clippy::significant_drop_tightening)] // Lock scopes are already minimal blocks
     pub fn add_wait(&self, waiter_tx_id: u64, holder_tx_id: u64, priority: Option<u32>) {
+        #[cfg(neumann_verif)]
+        crate::distributed_tx::verif_sched::point("wait_graph.add_wait");
         if waiter_tx_id == holder_tx_id {
             return; // Self-wait is invalid
         }
